@@ -33,6 +33,32 @@ def dial_fail(name, q, l, dgram):
     return {"name": name, "q": q, "l": l, "dgram": dgram, "steps": st}
 
 
+def overtake(name, q, dgram):
+    """limits equal (q = l): q queries are queued while dial 1 is held (dial 2 proves it); dial 1 returns a connection
+    whose ReserveNewQuery is gated; the q early callers arrive at the gate (held); a LATE call is started and the
+    harness observes for 300 ms whether it gets through to the dialed connection while the early ones are held
+    (it must not: earlyReserveCallWg); then everybody is released, the newest arrival first."""
+    st = [S("Call", c=c) for c in range(q + 1)]
+    # (the second connection's dial fails, so that the late call can only go to connection 1)
+    st += [S("WaitDial", k=2), S("DialFail", k=2), S("Collect"), S("DialOkGated", k=1), S("WaitGate", n=q), S("Call", c=q + 1),
+           S("WaitGateMore", n=q + 1, k=300), S("ReleaseGates"), S("WaitWrites", n=q), S("Collect"), S("FinishAll")]
+    return {"name": name, "q": q, "l": q, "dgram": dgram, "steps": st}
+
+
+def slow_reply(name, nq, dgram, dial_timeout_ms=300, factor=3):
+    """C02 for queries queued while dialing: nq calls while the dial is held, dial succeeds at once, the Writes return,
+    the replies arrive only after factor x DialTimeout (the callers' own contexts have no deadline): every call must
+    return its reply."""
+    st = [S("Call", c=c) for c in range(nq)]
+    st += [S("WaitDial", k=1), S("Sleep", n=20), S("DialOk", k=1)]
+    st += [S("WriteRet", c=c) for c in range(nq)]
+    st += [S("Sleep", n=dial_timeout_ms * factor)]
+    st += [S("Finish", c=c) for c in range(nq)]
+    # a query on the now established connection, same delay
+    st += [S("Call", c=nq), S("WriteRet", c=nq), S("Sleep", n=dial_timeout_ms + 100), S("Finish", c=nq)]
+    return {"name": name, "q": max(nq, 2), "l": 4, "dgram": dgram, "dial_timeout_ms": dial_timeout_ms, "steps": st}
+
+
 def to_trace(events):
     out = []
     for e in events:
@@ -57,6 +83,16 @@ def to_trace(events):
 def classify(trace, info):
     ev = info.get("event") or {}
     if ev.get("ev") == "ExchangeEnd" and ev.get("r") == "err":
+        line = info.get("line_in_trace") or len(trace)
+        c = ev.get("c")
+        written = False
+        for e in trace[:line - 1]:
+            if e.get("c") == c and e["ev"] == "Call":
+                written = False
+            if e.get("c") == c and e["ev"] == "ConnWrite":
+                written = True
+        if written:
+            return "pipeline:written-query-fails-without-fault:%s" % ev.get("e")
         return "pipeline:queued-query-fails:%s" % ev.get("e")
     if ev.get("ev") == "Dial":
         return "pipeline:extra-dial-although-capacity-left"
@@ -77,9 +113,9 @@ def run_scripts(ctx, scripts):
     return recs
 
 
-def validate_report(ctx, recs):
+def validate_report(ctx, recs, prop="C09"):
     acc, rej = vlib.validate_traces(ctx, "LazyPipe_Trace", TRACE_CFG, [r["trace"] for r in recs], max_reject=8,
-                                    label="C09 pipeline / lazy dial")
+                                    label="%s pipeline / lazy dial" % prop)
     by_sig = {}
     for idx, info in rej:
         by_sig.setdefault(classify(recs[idx]["trace"], info), []).append((idx, info))
@@ -89,7 +125,7 @@ def validate_report(ctx, recs):
     for sig, lst in by_sig.items():
         idx, info = lst[0]
         r = recs[idx]
-        ctx.violation(sig, "real trace of PipelineTransport is not a behaviour of LazyPipe.tla satisfying C09 "
+        ctx.violation(sig, "real trace of PipelineTransport is not a behaviour of LazyPipe.tla "
                            "(%d traces; first: %s rejected at event %s: %s)" % (
                                len(lst), r["name"], info.get("line_in_trace"), json.dumps(info.get("event"))),
                       {"script": r["script"], "trace": r["trace"], "driver": "drv_pipeline"})
@@ -105,6 +141,10 @@ def run(ctx, rng):
     if nv["violated"] != "NoRefusalIfEqual":
         raise vlib.Infra("non-vacuity run LazyPipe_dev_d5.cfg: expected NoRefusalIfEqual, got %r" % nv["violated"])
     ctx.cov["non_vacuity"].append("NoRefusalIfEqual fails under LazyPipe_dev_d5.cfg")
+    nv = vlib.run_tlc(ctx, "LazyPipe", "LazyPipe_dev_wg.cfg", expect_violation=True, workers=4)
+    if nv["violated"] != "NoRefusalIfEqual":
+        raise vlib.Infra("non-vacuity run LazyPipe_dev_wg.cfg: expected NoRefusalIfEqual, got %r" % nv["violated"])
+    ctx.cov["non_vacuity"].append("NoRefusalIfEqual fails under LazyPipe_dev_wg.cfg (wg.Done before the re-reservation)")
     ctx.assumptions += [
         "pipeline part: a new connection is dialed only when no existing one can take the query (DESIGN C09 binding ii); "
         "which existing connection takes it is free; retries after a failure on a shared connection are allowed up to 2",
@@ -115,6 +155,8 @@ def run(ctx, rng):
         for q, l in ((1, 1), (2, 2), (4, 4), (2, 4), (3, 2)):
             scripts.append(burst("burst.q%d.l%d.%d" % (q, l, k), q, l, extra=k % 3, dgram=(k % 2 == 1)))
         scripts.append(dial_fail("dialfail.%d" % k, 2, 2, dgram=(k % 2 == 1)))
+        for q in (1, 2, 3):
+            scripts.append(overtake("overtake.q%d.%d" % (q, k), q, dgram=(k % 2 == 1)))
     scripts = [s for s in scripts if s["l"] <= 8]  # the trace cfg has 12 callers
     for i in range(300 if T else 40):
         # (5 callers with queue limit 1 would make trace validation enumerate 5! caller->connection assignments)
@@ -131,6 +173,34 @@ def run(ctx, rng):
         raise vlib.Infra("dead pipeline driver: %d of %d steered; e.g. %s" % (
             len(st), len(recs), [r["why"] for r in recs if not r["steered"]][:3]))
     ctx.sample({"name": recs[1]["name"], "steered": recs[1]["steered"], "trace": recs[1]["trace"][:50]})
+    return len(recs)
+
+
+def run_c02(ctx, rng):
+    """C02 through PipelineTransport: a query queued while the connection is dialing gets its reply however late it
+    arrives (within the caller's own deadline) — in particular later than PipelineOpts.DialTimeout."""
+    T = ctx.thorough()
+    vlib.tlc_mc(ctx, "LazyPipe", "LazyPipe_design.cfg", label="LazyPipe design (an admitted query ends only with its reply)",
+                cfg_text=open(vlib.VERIF + "/spec/LazyPipe_design.cfg").read().replace("MaxCalls = 2", "MaxCalls = 1"), timeout=900)
+    ctx.assumptions += [
+        "pipeline part: LazyPipe.tla has no failure step for a query that was written on a healthy connection: without "
+        "fault, cancellation or caller deadline the only way out is its reply (however late; real-time waits of "
+        "3 x DialTimeout = 0.9 s are used, DialTimeout = 300 ms)",
+    ]
+    scripts = []
+    for k in range(4 if T else 1):
+        for nq in (1, 2):
+            for dgram in (False, True):
+                scripts.append(slow_reply("slowreply.n%d.%s.%d" % (nq, "udp" if dgram else "tcp", k), nq, dgram,
+                                          factor=3 + k))
+    recs = run_scripts(ctx, scripts)
+    rej = validate_report(ctx, recs, prop="C02")
+    st = [r for r in recs if r["steered"]]
+    ctx.cov["pipeline_scripts"] = len(recs)
+    ctx.cov["pipeline_scripts_steered"] = len(st)
+    if not rej and len(st) < len(recs):
+        raise vlib.Infra("pipeline driver could not steer: %s" % [r["why"] for r in recs if not r["steered"]][:3])
+    ctx.sample({"name": recs[0]["name"], "steered": recs[0]["steered"], "trace": recs[0]["trace"]})
     return len(recs)
 
 
